@@ -384,6 +384,82 @@ def w_arith(task):
     return part
 
 
+def general_alphabet(dtname):
+    """small alphabet for arbitrary (overlapping, unordered, zero-containing) lists"""
+    t = DT[dtname]
+    p = FMT[dtname]["p"]
+    u = float(np.ldexp(1.0, -(p - 1)))
+    vals = [0.0, 1.0, -1.0, 1.5, 0.5, 3.0, 1.0 + u, -(1.0 - u / 2), u, -u / 2, float(np.ldexp(1.0 + 3 * u, -p - 2)), 0.75]
+    return [t(v) for v in vals]
+
+
+def w_arith_general(task):
+    """add/subtract/multiply/square on arbitrary lists (not in normal form): the property quantifies over all finite
+    expansions, overlapping or not, with zeros."""
+    fa = setup_repo_import()
+    part = new_part()
+    dtname = task["dtype"]
+    t = DT[dtname]
+    f = FMT[dtname]
+    ap = fa.apmath
+    ctx = fa.utils.NumpyContext(t)
+    G = general_alphabet(dtname)
+    lists = [[a] for a in G] + [[a, b] for a in G for b in G] + ([[a, b, c] for a in G for b in G for c in G] if task["maxlen"] >= 3 else [])
+    pairs_src = [l for l in lists if len(l) <= 2]
+    rows = lists[task["lo"]::task["stride"]]
+    lowq = F(2) ** (f["emin"] - f["p"] + 1)
+
+    def products_exact(l1, l2):
+        # Dekker's product is error-free only if no partial product underflows (documented domain, as in w_arith)
+        return all((F(float(a)) * F(float(b)) / lowq).denominator == 1 for a in l1 for b in l2)
+
+    for e1 in rows:
+        s1 = fsum(e1)
+        exact = s1 * s1
+        for functional in (False, True):
+            if not products_exact(e1, e1):
+                bump(part, "general_square_skipped_underflow")
+                break
+            part["evaluations"] += 1
+            case = {"kind": "arith", "op": "square", "dtype": dtname, "functional": functional, "e1": [float(v).hex() for v in e1], "e2": [], "general": True}
+            try:
+                with np.errstate(all="ignore"):
+                    r = ap.square(ctx, list(e1), functional=functional)
+                err = abs(fsum(r) - exact)
+                if not (err < lead_ulp(r, dtname)) and exact != 0:
+                    add_violation(part, f"square:{dtname}:functional={functional}:error>=1ulp-of-leading-term:general-list", f"square({e1}) = {r}: error {float(err)!r}", case)
+                if exact != 0 and len([v for v in e1 if v != 0]) >= 2:
+                    part["nontrivial"] += 1
+            except Exception as ex:
+                add_violation(part, f"square:{dtname}:functional={functional}:raises:general-list", f"square({e1}) raised {type(ex).__name__}: {ex}", case)
+        if len(e1) > 2:
+            continue
+        for e2 in pairs_src[:: task["pair_stride"]]:
+            s2 = fsum(e2)
+            for functional in (False, True):
+                for op, exact in (("add", s1 + s2), ("subtract", s1 - s2), ("multiply", s1 * s2)):
+                    if op == "multiply" and not products_exact(e1, e2):
+                        bump(part, "general_multiply_skipped_underflow")
+                        continue
+                    part["evaluations"] += 1
+                    case = {"kind": "arith", "op": op, "dtype": dtname, "functional": functional, "e1": [float(v).hex() for v in e1], "e2": [float(v).hex() for v in e2], "general": True}
+                    try:
+                        with np.errstate(all="ignore"):
+                            r = getattr(ap, op)(ctx, list(e1), list(e2), functional=functional)
+                    except Exception as ex:
+                        add_violation(part, f"{op}:{dtname}:functional={functional}:raises:general-list", f"{op}({e1},{e2}) raised {type(ex).__name__}: {ex}", case)
+                        continue
+                    if op == "multiply":
+                        err = abs(fsum(r) - exact)
+                        if not (err < lead_ulp(r, dtname)) and exact != 0:
+                            add_violation(part, f"multiply:{dtname}:functional={functional}:error>=1ulp-of-leading-term:general-list", f"multiply({e1},{e2}) = {r}: error {float(err)!r}", case)
+                    elif fsum(r) != exact:
+                        add_violation(part, f"{op}:{dtname}:functional={functional}:inexact:general-list", f"{op}({e1},{e2}, functional={functional}) = {r} sums to {float(fsum(r))!r}, exact {float(exact)!r}", case)
+    if rows:
+        part["samples"].append({"arith_general": dtname, "e1": [float(v) for v in rows[0]], "lists": len(lists)})
+    return part
+
+
 # ------------------------------------------------------------------ workers
 
 
@@ -526,13 +602,18 @@ def run(run):
         for i in range(0, len(E), step):
             tasks.append(dict(dtype=dtname, alphabet_bits=Abw, rows=[i, i + step], stride=1 if thorough else 3, mul=True))
     run.map(MOD, "w_arith", tasks)
+    tasks = []
+    for dtname in ("float16", "float32", "float64"):
+        for lo in range(24):
+            tasks.append(dict(dtype=dtname, lo=lo, stride=24, maxlen=3, pair_stride=1 if thorough else 2))
+    run.map(MOD, "w_arith_general", tasks)
     nrow = 256 if thorough else 96
     tasks = [dict(start=(i * 7 + run.seed) % 997, step=63488 // nrow * 16 + 1, cstep=3 if thorough else 11) for i in range(16)]
     run.map(MOD, "w_overlap_predicate", tasks)
     run.rule = (
         f"renormalize: all lists of length 1..{L} over a {len(A16)}-value float16 alphabet x functional(NumpyContext vectorised, traced+emitted "
         "NumPy graph) / eager x fast (decreasing inputs only) / safe x size None,1,2,len; second pass for normal form; float32/float64 lists of "
-        "length <= 3 (4) with Fraction sums; add/subtract/multiply/square on all pairs of valid length<=2 expansions; utils.overlapping vs an "
+        "length <= 3 (4) with Fraction sums; add/subtract/multiply/square on all pairs of valid length<=2 expansions, and on arbitrary (overlapping, unordered, zero-containing) lists of length <= 3 (square) / <= 2 (binary operations) over a 12-value alphabet; utils.overlapping vs an "
         "independent predicate on float16 pair blocks; non-trivial = lists with >= 2 non-zero items"
     )
     run.exhaustive = True
